@@ -229,10 +229,56 @@ def c08_cases(tier):
         yield case, oracle
 
 
+CLI_TARGET = os.path.join(WORK, "cli-target")
+CLI_BIN = os.path.join(CLI_TARGET, "release", "graphql-client")
+_cli_built = False
+
+
+def ensure_cli_built():
+    global _cli_built
+    if _cli_built and os.path.exists(CLI_BIN):
+        return True
+    env = dict(os.environ, CARGO_NET_OFFLINE="true", CARGO_TARGET_DIR=CLI_TARGET)
+    p = subprocess.run(["cargo", "build", "--release", "--offline", "-p", "graphql_client_cli"], cwd="/repo", env=env, capture_output=True, text=True)
+    _cli_built = p.returncode == 0
+    if not _cli_built:
+        raise RuntimeError("graphql_client_cli does not build: " + p.stderr[-1500:])
+    return True
+
+
+def run_cli(args, timeout=60):
+    ensure_cli_built()
+    try:
+        p = subprocess.run([CLI_BIN] + args, capture_output=True, text=True, timeout=timeout)
+        return {"exit": p.returncode, "stdout": p.stdout[-2000:], "stderr": p.stderr[-600:], "timeout": False}
+    except subprocess.TimeoutExpired:
+        return {"exit": None, "stdout": "", "stderr": "timeout", "timeout": True}
+
+
+def c20_witness(tier):
+    """transport failure (nothing listens on the port): the command must exit non-zero and leave an existing output file untouched"""
+    d = os.path.join(WORK, "replay-files")
+    os.makedirs(d, exist_ok=True)
+    out = os.path.join(d, "c20_out.json")
+    original = '{"keep": "me"}\n'
+    open(out, "w").write(original)
+    args = ["introspect-schema", "http://127.0.0.1:9/graphql", "--output", out]
+    res = run_cli(args, timeout=30)
+    after = open(out).read() if os.path.exists(out) else None
+    if res["exit"] == 0:
+        return {"case": {"cli": args}, "observed": "exit status 0 although the endpoint is unreachable", "bounded": True, "cases_tried": 1, "how": "built graphql-client binary"}
+    if after != original:
+        return {"case": {"cli": args, "existing_output": original}, "observed": "connection refused: exit %s and the existing output file now holds %r" % (res["exit"], after),
+                "bounded": True, "cases_tried": 1, "how": "built graphql-client binary (cargo build -p graphql_client_cli from /repo's working tree)"}
+    return None
+
+
 FAMILIES = {"C13": c13_cases, "C03": c13_cases, "C14": c14_cases, "C16": c16_cases, "C17": c17_cases, "C11": c11_cases, "C08": c08_cases}
 
 
 def search_witness(pid, obligation, tier):
+    if pid == "C20":
+        return c20_witness(tier)
     fam = FAMILIES.get(pid)
     if fam is None:
         return None
@@ -254,6 +300,16 @@ def replay_file(path):
         print("replay file names obligation %s of %s; the verifier gave no counterexample and the bounded search found no failing input" % (d.get("obligation"), d.get("property")))
         for t in d.get("verifier_output", [])[:3]:
             print(t)
+        return 1
+    if "cli" in w["case"]:
+        if "existing_output" in w["case"]:
+            out = w["case"]["cli"][-1]
+            open(out, "w").write(w["case"]["existing_output"])
+        res = run_cli(w["case"]["cli"], timeout=60)
+        print(json.dumps({"case": w["case"], "result": res}, indent=1))
+        if "existing_output" in w["case"]:
+            print("output file now:", repr(open(w["case"]["cli"][-1]).read()))
+        print("recorded observation:", w["observed"])
         return 1
     res = run_case(w["case"], timeout=60)
     print(json.dumps({"case": w["case"], "exit": res["exit"], "timeout": res.get("timeout"), "stderr": res["stderr"][-300:],
